@@ -19,12 +19,12 @@ REACH = ["rate", "_unwind", "_sorter", "__deepcopy__"]
 
 def floors(tier):
     q = tier == "quick"
-    return {"shape": 3000 if q else 60000, "identity": 3000 if q else 60000, "placement": 10000 if q else 200000,
-            "inputs-consistent": 3000 if q else 60000}
+    return {"shape": 3000 if q else 360000, "identity": 3000 if q else 360000, "placement": 10000 if q else 1200000,
+            "inputs-consistent": 3000 if q else 360000}
 
 
 def generate(ctx):
-    n = ctx.budget(8000, 120000)
+    n = ctx.budget(8000, 720000)
     for _ in range(n):
         regime = ctx.rng.choice(["typical", "wide", "equal_size", "equal_size", "huge_sigma", "mismatch", "tiny_sigma",
                                  "identical", "identical"])
